@@ -2,6 +2,7 @@ package life
 
 import (
 	"fmt"
+	"sync/atomic"
 	"testing"
 
 	"pgregory.net/rapid"
@@ -136,23 +137,13 @@ func runC05(c *LCase) (viol string, nontrivial bool) {
 		storm := 0
 		if i == len(c.Calls)-1 {
 			storm = c.Storm
+			atomic.StoreInt64(&stormIters, 0)
 		}
 		res := make(chan string, n+storm+1)
 		for g := 0; g < storm; g++ {
 			g := g
 			go func() {
-				proof, _ := withWatchdog(fmt.Sprintf("storm goroutine %d (Add/WatchList/Remove loop)", g), func() {
-					for j := 0; j < 60; j++ {
-						switch (j + g) % 3 {
-						case 0:
-							w.W.Add([]string{"d0", "d1", "u"}[j%3])
-						case 1:
-							w.W.WatchList()
-						default:
-							w.W.Remove([]string{"d1", "u"}[j%2])
-						}
-					}
-				})
+				proof, _ := withWatchdog(fmt.Sprintf("storm goroutine %d (Add/WatchList/Remove loop)", g), func() { stormBody(w.W, g) })
 				res <- proof
 			}()
 		}
@@ -166,6 +157,9 @@ func runC05(c *LCase) (viol string, nontrivial bool) {
 		for k := 0; k < n; k++ {
 			go func() {
 				proof, ok := withWatchdog(call.String(), func() {
+					if storm > 0 {
+						midStorm(storm * 25)
+					}
 					switch call.K {
 					case "add":
 						w.W.Add(string(call.P))
